@@ -91,6 +91,11 @@ func (pe *PeriodicalExecutor) Sync(fn func()) {
 // Wait waits the execution to be done.
 func (pe *PeriodicalExecutor) Wait() {
 	pe.Flush()
+	// the tasks taken out of the container by Add are not in the wait group
+	// until the background goroutine picks them up, wait for that first.
+	for atomic.LoadInt32(&pe.inflight) > 0 {
+		time.Sleep(time.Millisecond)
+	}
 	pe.wgBarrier.Guard(func() {
 		pe.waitGroup.Wait()
 	})
@@ -129,8 +134,9 @@ func (pe *PeriodicalExecutor) backgroundFlush() {
 			select {
 			case vals := <-pe.commander:
 				commanded = true
-				atomic.AddInt32(&pe.inflight, -1)
+				// enter execution before leaving inflight, so that Wait always sees the tasks
 				pe.enterExecution()
+				atomic.AddInt32(&pe.inflight, -1)
 				pe.confirmChan <- lang.Placeholder
 				pe.executeTasks(vals)
 				last = timex.Now()
